@@ -422,7 +422,7 @@ def authExchange (v : Verdicts) (ao : AuthOracle) (s : St) (mech : Bytes) (initi
         match challenge ao none st' with
         | .error e => .error e
         | .ok (.error code, evs2, st'') => .ok (s, evs ++ evs2 ++ [.reply code], .continue_, st'')
-        | .ok (.ok pass, evs2, st'') => .ok (done (user, pass, []) (evs ++ evs2) st'')
+        | .ok (.ok pass, evs2, st'') => .ok (done (user, pass, user) (evs ++ evs2) st'')   -- pysasl: empty authzid = authcid
 
 structure Run where
   events : List Event
